@@ -11,7 +11,7 @@ use {crate::verif::Instant, std::time::Duration};
 
 use crate::cancel::Cancel;
 use crate::coroutine_impl::{
-    current_cancel_data, run_coroutine, Coroutine, CoroutineImpl, EventSource,
+    current_cancel_data, is_coroutine, run_coroutine, Coroutine, CoroutineImpl, EventSource,
 };
 use crate::join::JoinHandle;
 use crate::scoped::spawn_unsafe;
@@ -284,6 +284,17 @@ impl Drop for Cqueue {
     // this would cancel all unfinished select coroutines
     // and wait until all of them return back
     fn drop(&mut self) {
+        // waiting for the select coroutines must not be a cancellation point: a
+        // Cancel panic out of this drop would free the cqueue under their feet,
+        // and a coroutine that is cancelled already would not wait at all
+        let cancel = if is_coroutine() {
+            Some(current_cancel_data())
+        } else {
+            None
+        };
+        if let Some(c) = cancel {
+            c.disable_cancel();
+        }
         // first cancel all the select coroutines if they are running
         self.selectors
             .lock()
@@ -308,6 +319,9 @@ impl Drop for Cqueue {
             }
         }
         // we are sure that all the coroutines are finished
+        if let Some(c) = cancel {
+            c.enable_cancel();
+        }
     }
 }
 
@@ -319,13 +333,23 @@ pub fn scope<'a, F, R>(f: F) -> R
 where
     F: FnOnce(&Cqueue) -> R + 'a,
 {
-    let cqueue = Cqueue {
-        ev_queue: Queue::new(),
-        to_wake: AtomicOption::none(),
-        cnt: AtomicUsize::new(0),
-        selectors: Mutex::new(Vec::new()),
-        total: AtomicUsize::new(0),
-        is_panicking: AtomicBool::new(false),
+    // the drop of the cqueue waits for the select coroutines. this must not happen
+    // while unwinding (a coroutine can't switch its stack in the middle of an
+    // unwind), so catch the panic, wait, and go on with the panic afterwards.
+    // the cqueue is dropped in place, the select coroutines hold references to it
+    let ret = {
+        let cqueue = Cqueue {
+            ev_queue: Queue::new(),
+            to_wake: AtomicOption::none(),
+            cnt: AtomicUsize::new(0),
+            selectors: Mutex::new(Vec::new()),
+            total: AtomicUsize::new(0),
+            is_panicking: AtomicBool::new(false),
+        };
+        panic::catch_unwind(panic::AssertUnwindSafe(|| f(&cqueue)))
     };
-    f(&cqueue)
+    match ret {
+        Ok(r) => r,
+        Err(e) => panic::resume_unwind(e),
+    }
 }
